@@ -14,6 +14,7 @@ import shutil
 import tempfile
 
 from .. import fsmon
+from .. import ambient
 from .. import refcodec as rc
 from .. import carts
 
@@ -200,7 +201,7 @@ def run_require(ctx, U, s, lp, hostile, form=None):
         else:
             fh.write(b"q=1\nprint(require '" + s.encode() + b"')\n")
     ctx.feature('require_form:' + form)
-    argv = ['-q', 'build', out, '--lua', main]
+    argv = [ambient.vflag(), 'build', out, '--lua', main]
     roots = [root]
     env_path = None
     if lp == 'rel_lib':
@@ -274,7 +275,7 @@ def poison(ctx, U):
     with open(os.path.join(root, 'sub', 'needs_missing.lua'), 'wb') as fh:
         fh.write(b'require("not_there_at_all")\n')
     try:
-        tool.main(['-q', 'build', os.path.join(root, 'poison_out.p8'), '--lua', main])
+        tool.main([ambient.vflag(), 'build', os.path.join(root, 'poison_out.p8'), '--lua', main])
     except BaseException:
         ctx.feature('failed_build_before_case')
     for f in (cart, main, os.path.join(root, 'poison_out.p8')):
